@@ -99,16 +99,18 @@ func (l *Local[T]) Store(proc *Process, val T) {
 	_, ok := l.eager[proc]
 
 	l.eager[proc] = val
-	if !ok {
-		proc.AddExitHook(ExitFunc(func(err error) {
-			l.Delete(proc)
-		}))
-	}
 
 	storeHooks := l.storeHooks[proc]
 	delete(l.storeHooks, proc)
 
 	l.mu.Unlock()
+
+	if !ok {
+		// outside the lock: on a terminated process the hook runs at once and takes the lock itself
+		proc.AddExitHook(ExitFunc(func(err error) {
+			l.Delete(proc)
+		}))
+	}
 
 	storeHooks.Store(val)
 }
